@@ -25,7 +25,7 @@ ASSUMPTIONS = [
     "order of full_join's output is not asserted; left and right items share no non-key names",
     "every item has all join/group keys; key values are mutually comparable per key",
 ]
-REACH = {"quick": {"op:left_join": 800, "op:full_join": 800, "op:aggregate": 800, "renamed": 1500, "none-key": 1500, "empty-operand": 400, "dup-right": 1500}}
+REACH = {"quick": {"op:left_join": 800, "op:full_join": 800, "op:aggregate": 800, "renamed": 1500, "none-key": 1500, "empty-operand": 400, "dup-right": 1500, "long-right": 200}}
 
 OPS = ["left_join", "inner_join", "semi_join", "anti_join", "full_join", "aggregate"]
 
@@ -36,11 +36,16 @@ def generate(rng, tier):
     if op == "aggregate":
         n = rng.choice([0, 1, 2, 4, 7, 10])
         keys = ["g0", "g1"][:nk]
-        items = [dict({"_tag_": i}, **{k: rng.choice(pools[j]) for j, k in enumerate(keys)}) for i in range(n)]
+        gp = list(pools)
+        if rng.random() < 0.15:
+            gp = [[(2020, 12), (2020, 1), (2019, 12), None], [("a", 1), ("a", 0), None]]      # tuple-valued group keys, e.g. (year, month)
+        items = [dict({"_tag_": i}, **{k: rng.choice(gp[j]) for j, k in enumerate(keys)}) for i in range(n)]
         for it in items:
             if rng.random() < 0.5: it["v"] = rng.choice([1, 2.5, None])
         return {"op": op, "items": items, "keys": rng.sample(keys, len(keys))}
     nl, nr = rng.choice([0, 1, 2, 4, 7, 10]), rng.choice([0, 1, 2, 4, 7, 10])
+    if rng.random() < 0.15:
+        nl, nr = rng.choice([1, 2, 3]), rng.choice([35, 60])      # a right list much longer than the left one
     disjoint = rng.random() < 0.1
     by = []
     lk, rk = [], []
@@ -114,6 +119,7 @@ def execute(case):
     if nonek: res.cls("none-key")
     if not left or not right: res.cls("empty-operand")
     if dup: res.cls("dup-right")
+    if len(right) > 10 * max(1, len(left)): res.cls("long-right")
     ctx = f"{op}(by={by}) left {canon.short(left, 600)} right {canon.short(right, 600)}"
     def merged(i):
         out = dict(left[i])
